@@ -1,7 +1,7 @@
 (* Properties/C11.v — distances and paths are valid walks of minimal length (C11).
    spec_C11 compares every reported distance with [sd] over the reported parent links and checks
    every reported path link by link; these theorems say what [sd] is. *)
-From HpoV Require Import Gen.Consts Model.Base Model.Group Model.Onto Model.Query Run.World Run.C01 Run.C11 Proofs.C11P Proofs.ClosureP Proofs.DistP Proofs.DistTermP Proofs.PathTermP Proofs.QgoodP Model.Script Proofs.AllPathsP.
+From HpoV Require Import Gen.Consts Model.Base Model.Group Model.Onto Model.Query Run.World Run.C01 Run.C11 Proofs.C11P Proofs.ClosureP Proofs.DistP Proofs.DistTermP Proofs.PathTermP Proofs.QgoodP Model.Script Proofs.AllPathsP Proofs.AcyclicP Proofs.TotalDistP.
 
 Theorem C11_distance_is_a_chain_length : forall ts b fuel a d, sd fuel ts a b = Some d ->
   exists l, is_chain ts a l = true /\ last l a = b /\ Nlen l = d.
@@ -98,6 +98,25 @@ Proof. exact path_term_minimal. Qed.
 Theorem C11_constructed_ontologies_are_qgood : forall icf o, constructed icf o -> qgood o.
 Proof. exact constructed_qgood. Qed.
 
+(* ---- TOTALITY: in an acyclic ontology with exact caches the four queries RETURN for all terms of the
+   ontology (enough fuel, no failing lookup, none of path_to_term's expect() panics); the
+   "whenever the query returns" theorems above therefore always apply ---- *)
+Theorem C11_distance_to_ancestor_returns : forall o, qgood o -> acyclic (o_arena o) -> forall ta tb,
+  In ta (ar_terms (o_arena o)) -> exists r, dist_anc (q_fuel o) o ta tb = Ok r.
+Proof. exact distance_to_ancestor_returns. Qed.
+
+Theorem C11_path_to_ancestor_returns : forall o, qgood o -> acyclic (o_arena o) -> forall ta tb,
+  In ta (ar_terms (o_arena o)) -> exists r, path_anc (q_fuel o) o ta tb = Ok r.
+Proof. exact path_to_ancestor_returns. Qed.
+
+Theorem C11_distance_to_term_returns : forall o, qgood o -> acyclic (o_arena o) -> forall ta tb,
+  In ta (ar_terms (o_arena o)) -> In tb (ar_terms (o_arena o)) -> exists r, dist_term o ta tb = Ok r.
+Proof. exact distance_to_term_returns. Qed.
+
+Theorem C11_path_to_term_returns : forall o, qgood o -> acyclic (o_arena o) -> forall ta tb,
+  In ta (ar_terms (o_arena o)) -> In tb (ar_terms (o_arena o)) -> exists r, path_term o ta tb = Ok r.
+Proof. exact path_to_term_returns. Qed.
+
 Print Assumptions C11_distance_is_a_chain_length.
 Print Assumptions C11_distance_is_minimal.
 Print Assumptions C11_chain_is_walk.
@@ -115,3 +134,7 @@ Print Assumptions C11_model_term_path_is_a_walk.
 Print Assumptions C11_model_term_path_is_shortest.
 Print Assumptions C11_builder_ontologies_are_qgood.
 Print Assumptions C11_constructed_ontologies_are_qgood.
+Print Assumptions C11_distance_to_ancestor_returns.
+Print Assumptions C11_path_to_ancestor_returns.
+Print Assumptions C11_distance_to_term_returns.
+Print Assumptions C11_path_to_term_returns.
